@@ -146,6 +146,54 @@ class T(P.Translator2M):
         finally:
             self._fn_stack = old
 
+    @staticmethod
+    def _pure_lvalue(node):
+        ast = P.ast
+        while isinstance(node, ast.Attribute):
+            node = node.value
+        return isinstance(node, ast.Name)
+
+    def _splice_call(self, call):
+        """statements of a helper called as a statement, its parameters replaced by the (side-effect free) arguments"""
+        ast = P.ast
+        if len(self._fn_stack) > 3:
+            return None
+        r = self._resolve_callee(call.func)
+        if r is None:
+            return None
+        f, recv, _static = r
+        if f in self._fn_stack:
+            return None
+        cnode, _src = P.source_ast(f)
+        a = cnode.args
+        if a.vararg or a.kwarg or a.kwonlyargs or a.posonlyargs or call.keywords:
+            return None
+        params = [x.arg for x in a.args]
+        args = ([recv] if recv is not None else []) + list(call.args)
+        if len(args) != len(params):
+            return None
+        if not all(self._pure_lvalue(x) or isinstance(x, ast.Constant) for x in args):
+            return None
+        body = [b for b in cnode.body if not (isinstance(b, ast.Expr) and isinstance(b.value, ast.Constant))]
+        if any(isinstance(n_, (ast.Return, ast.Yield, ast.YieldFrom)) for b in body for n_ in ast.walk(b)):
+            return None
+        assigned = set(P.Translator2.assigned_names(self, body))
+        if assigned & set(params):
+            return None                                   # the helper rebinds a parameter: not a plain in-place helper
+        T._k += 1
+        ren = {n_: "%s_h%d" % (n_, T._k) for n_ in assigned}
+        sub = dict(zip(params, args))
+
+        class Sub(ast.NodeTransformer):
+            def visit_Name(self_, node):
+                if node.id in sub:
+                    return ast.copy_location(ast.parse(ast.unparse(sub[node.id]), mode="eval").body, node)
+                if node.id in ren:
+                    return ast.copy_location(ast.Name(id=ren[node.id], ctx=node.ctx), node)
+                return node
+        import copy as _copy
+        return [ast.fix_missing_locations(Sub().visit(_copy.deepcopy(b))) for b in body]
+
     def _resolve_callee(self, func):
         """(python function, lean text of the receiver or None) for `helper(..)` / `self.helper(..)` / `Cls.helper(..)`"""
         import inspect
@@ -262,20 +310,56 @@ class T(P.Translator2M):
             load = ast.parse(ast.unparse(st.target), mode="eval").body
             new = ast.Assign(targets=[st.target], value=ast.BinOp(left=load, op=st.op, right=st.value))
             return self.block([ast.fix_missing_locations(new)] + list(stmts[1:]), scope, ind, ctx)
-        # `for x in IT: L.append(E)`  ->  L = L + [E for x in IT]   (the loop and the comprehension are one canonical form)
-        if (isinstance(st, ast.For) and not st.orelse and len(st.body) == 1 and isinstance(st.body[0], ast.Expr)
-                and isinstance(st.body[0].value, ast.Call) and isinstance(st.body[0].value.func, ast.Attribute)
-                and st.body[0].value.func.attr == "append" and isinstance(st.body[0].value.func.value, ast.Name)
-                and st.body[0].value.func.value.id in scope and len(st.body[0].value.args) == 1
-                and not st.body[0].value.keywords):
-            lst = st.body[0].value.func.value.id
-            comp = ast.ListComp(elt=st.body[0].value.args[0],
-                                generators=[ast.comprehension(target=st.target, iter=st.iter, ifs=[], is_async=0)])
-            val = "(List.append %s %s)" % (scope[lst], self.comprehension(ast.fix_missing_locations(comp), scope, "list"))
-            fresh = self.fresh(lst, scope)
-            sc = dict(scope)
-            sc[lst] = fresh
-            return "%slet %s := %s\n%s" % ("  " * ind, fresh, val, self.block(list(stmts[1:]), sc, ind, ctx))
+        # `for x in IT: [t = ..;] L.append(E)`  ->  L = L + [E for x in IT]   (loop and comprehension are one canonical form;
+        # assignments to fresh locals in front of the append are the element's own temporaries)
+        if isinstance(st, ast.For) and not st.orelse and st.body:
+            last, pre = st.body[-1], st.body[:-1]
+            if (isinstance(last, ast.Expr) and isinstance(last.value, ast.Call) and isinstance(last.value.func, ast.Attribute)
+                    and last.value.func.attr == "append" and isinstance(last.value.func.value, ast.Name)
+                    and last.value.func.value.id in scope and len(last.value.args) == 1 and not last.value.keywords
+                    and all(isinstance(b, ast.Assign) and len(b.targets) == 1 and isinstance(b.targets[0], ast.Name)
+                            and b.targets[0].id not in scope for b in pre)):
+                lst = last.value.func.value.id
+                it = self.pure(st.iter, scope)
+                item = self.fresh("it", scope)
+                sc_i = dict(scope)
+                sc_i["\0tmp" + item] = item
+                lines, sc_i = self.bind_target(st.target, item, sc_i)
+                saved = (self.r.ret, self.r.end)
+                self.r.ret, self.r.end = "{e}", None
+                try:
+                    inner = P._Ctx(exit_=lambda v, s_, i: "  " * i + v,
+                                   end=lambda s_, i: (_ for _ in ()).throw(P.Untranslatable("append loop")))
+                    ret = ast.fix_missing_locations(ast.Return(value=last.value.args[0]))
+                    body = self.block(list(pre) + [ret], sc_i, ind + 2, inner)
+                finally:
+                    self.r.ret, self.r.end = saved
+                lets = "".join("  " * (ind + 2) + l + "\n" for l in lines)
+                val = "(List.append %s (List.map (fun %s =>\n%s%s) %s))" % (scope[lst], item, lets, body, it)
+                fresh = self.fresh(lst, scope)
+                sc = dict(scope)
+                sc[lst] = fresh
+                return "%slet %s := %s\n%s" % ("  " * ind, fresh, val, self.block(list(stmts[1:]), sc, ind, ctx))
+        # `helper(lvalue, args)` as a STATEMENT, without a rule, for a helper of the same module / class that only runs
+        # statements on its parameters: the helper's body is spliced in with the arguments substituted for its parameters
+        if isinstance(st, ast.Expr) and isinstance(st.value, ast.Call) and not any(P.match(p_, st, {}) for p_, _r, _t in self.r.stmt):
+            sp = self._splice_call(st.value)
+            if sp is not None:
+                return self.block(sp + list(stmts[1:]), scope, ind, ctx)
+        # `c = type(x)` ... `c(args)`: a class-valued temporary is propagated to where it is called (rules speak of `type(x)(..)`)
+        if (isinstance(st, ast.Assign) and len(st.targets) == 1 and isinstance(st.targets[0], ast.Name)
+                and isinstance(st.value, ast.Call) and isinstance(st.value.func, ast.Name) and st.value.func.id == "type"
+                and len(st.value.args) == 1 and not st.value.keywords and self._pure_lvalue(st.value.args[0])):
+            name, val = st.targets[0].id, st.value
+            rest = list(stmts[1:])
+            if name not in self.assigned_names(rest):
+                class Sub(ast.NodeTransformer):
+                    def visit_Name(self_, node):
+                        if node.id == name and isinstance(node.ctx, ast.Load):
+                            return ast.copy_location(ast.parse(ast.unparse(val), mode="eval").body, node)
+                        return node
+                rest = [ast.fix_missing_locations(Sub().visit(x)) for x in rest]
+                return self.block(rest, scope, ind, ctx)
         # `for x in <lvalue>: <statements that only update x in place>`  ->  <lvalue> = [updated x for x in <lvalue>]
         if isinstance(st, ast.For):
             m = self._inplace_map(st, list(stmts[1:]), scope, ind, ctx)
@@ -601,12 +685,9 @@ def items():
             ret="some ({e})")
     add("def genIndexAlphaBeta (i ij ik : List V2) (points : V2) : Option (Nat × Rat × Rat) :=",
         lambda: T(iab).function(pw.index_alpha_beta, {"i": "i", "ij": "ij", "ik": "ik", "points": "points"}, ind=1), "none")
-    corners = [("$t[:, 1] - $t[:, 0]", "(List.map (fun c => V2.sub c.2.1 c.1) {t})"),
-               ("$t[:, 2] - $t[:, 0]", "(List.map (fun c => V2.sub c.2.2 c.1) {t})"),
-               ("$t[:, 0]", "(List.map (fun c => c.1) {t})"),
-               ("$x[1] - $x[0]", "(List.map (fun c => V2.sub c.2.1 c.1) {x})"),
-               ("$x[2] - $x[0]", "(List.map (fun c => V2.sub c.2.2 c.1) {x})"),
-               ("$x[0]", "(List.map (fun c => c.1) {x})")]
+    # the three corners of every triangle, one word each; `a - b` on per-triangle vectors is the Np instance on List V2
+    corners = [("$t[:, 0]", "(cornerI {t})"), ("$t[:, 1]", "(cornerJ {t})"), ("$t[:, 2]", "(cornerK {t})"),
+               ("$x[0]", "(cornerI {x})"), ("$x[1]", "(cornerJ {x})"), ("$x[2]", "(cornerK {x})")]
     bary = R(expr=[("np.transpose($p[$t], axes=[1, 2, 0])", "(cornersOf {p} {t})")] + corners)
     add("def genBarycentricVectors (points : Nat → V2) (trilist : List Tri) : List V2 × List V2 × List V2 :=",
         lambda: T(bary).function(pw.barycentric_vectors, {"points": "points", "trilist": "trilist"}, ind=1), "([], [], [])")
@@ -686,10 +767,10 @@ def items():
                        ("$a.dot($b)", "(mul {a} {b})"), ("np.dot($a, $b)", "(mul {a} {b})"),
                        ("$p.shape[1]", "(nDims {p})"),
                        ("$p[..., 0][:, None]", "(colOf {p} 0)"), ("$p[..., 1][:, None]", "(colOf {p} 1)"),
-                       ("$s.coefficients[-3]", "(rowFromEnd ({s}).coefficients 2)"),
-                       ("$s.coefficients[-2]", "(rowFromEnd ({s}).coefficients 1)"),
-                       ("$s.coefficients[-1]", "(rowFromEnd ({s}).coefficients 0)"),
-                       ("$s.coefficients[:-3]", "(rowsButLast3 ({s}).coefficients)"),
+                       ("$s.coefficients", "({s}).coefficients"),
+                       ("$c[-3]", "(rowFromEnd {c} 2)"), ("$c[-2]", "(rowFromEnd {c} 1)"), ("$c[-1]", "(rowFromEnd {c} 0)"),
+                       ("$c[-3:]", "(rowFromEnd {c} 2, rowFromEnd {c} 1, rowFromEnd {c} 0)"),
+                       ("$c[:-3]", "(rowsButLast3 {c})"),
                        ],
                  stmt=[("Alignment.__init__($s, $a, $b)", "s", "(genAlignmentInit TpsObj.ops {s} {a} {b})"),
                        ("$s.min_singular_val = $v", "s", "{{ {s} with minSing := {v} }}"),
